@@ -12,7 +12,7 @@ SPEC = dict(
                  "level compaction group size set to 2 and 2-row segments so that short histories reach every layout",
                  "background compaction worker and time-based flush disabled for determinism (their effects are explicit ops)"],
 )
-CLAIMED = False
+CLAIMED = True
 MANIFEST = dict(
     level="exploration", engine="seqx",
     technique="bounded exhaustive exploration of operation histories on the real shard with a last-write-wins reference model compared after every step",
